@@ -423,6 +423,9 @@ def execute(plan):
     B = run_history(plan, True, c["lib_seed"], run)
     trace = [[m["type"] for m in c["models"]], [op["op"] for op in plan["ops"]]]
     for e in A["errors"]:
+        if "Expected p_in >= 0 && p_in <= 1" in e[1]:
+            run.inconclusive["diverged_nan_probability"] += 1
+            continue
         run.violate(f"EXC-op:{e[0]}", f"operation {e[0]} raised {e[1]}")
     d = _first_diff(A["digests"], B["digests"])
     if d is not None:
